@@ -71,7 +71,7 @@ where CL03<CS>: Scheme<PubKey = CL03PublicKey, PrivKey = CL03SecretKey>, CS::Has
     let maxn = if env.thorough() { 4 } else { 3 };
     let w: World<CS> = World::generate(maxn);
     let items = collect::<CS>(env, &w, maxn, "c19");
-    env.ctx.set_rule("every honest issuance proof (all non-empty hidden subsets) and signature proof (all subsets), n <= 3 (thorough 4). S = all integer leaves of the serialized proof; Cset = every Fiat-Shamir challenge a recipient can recompute (explicit challenge / C fields, C mod 2^t, and the hashes the verifier recomputes from public data); X = every secret the prover holds that the harness knows (hidden m_i, e, s, v, commitment randomness r, and any randomness leaf that is present in the proof). For EVERY (s, c, x) in S x Cset x X and EVERY ordered pair (s, s') in S^2: |floor(s/c) - x| >= 2^64 and |floor(s/s') - x| >= 2^64; and for every pair of leaves and every pair of secrets |floor((s - s')/c) - (x - x')| >= 2^64 (shared blinding). Additionally every embedded Boudot range proof is attacked through its proofs of square: floor(d / challenge)^2 plus the public offset, shifted by 2^T, must not land within 2^64 of the secret the range proof is about (hidden m_i, e, r). State = (proof, leaf); non-trivial = a quotient was computed against a prover secret.");
+    env.ctx.set_rule("every honest issuance proof (all non-empty hidden subsets) and signature proof (all subsets), n <= 3 (thorough 4). S = all integer leaves of the serialized proof; Cset = every Fiat-Shamir challenge a recipient can recompute (explicit challenge / C fields, C mod 2^t, and the hashes the verifier recomputes from public data); X = every secret the prover holds that the harness knows (hidden m_i, e, s, v, commitment randomness r, and any randomness leaf that is present in the proof). For EVERY (s, c, x) in S x Cset x X and EVERY ordered pair (s, s') in S^2: |floor(s/c) - x| >= 2^64 and |floor(s/s') - x| >= 2^64; and for every pair of leaves and every pair of secrets |floor((s - s')/c) - (x - x')| >= 2^64 (shared blinding); floor(response / challenge of the same sub-proof) must not be the opening randomness of any commitment value in the proof or of the request's commitment (V != prod g_i^m_i * h^q, V != g_i^m_i * h^q over the three base families); the bit length of every response is the same (+-64 bits) whether the hidden attribute is 0, 1 or hash-sized. Additionally every embedded Boudot range proof is attacked through its proofs of square: floor(d / challenge)^2 plus the public offset, shifted by 2^T, must not land within 2^64 of the secret the range proof is about (hidden m_i, e, r). State = (proof, leaf); non-trivial = a quotient was computed against a prover secret.");
     let bound = pow2(64);
     par_for(&items, |_, it| {
         if !env.want(&it.id) || env.ctx.out_of_time() { return; }
@@ -124,6 +124,47 @@ where CL03<CS>: Scheme<PubKey = CL03PublicKey, PrivKey = CL03SecretKey>, CS::Has
             env.ctx.class(if is_resp { "response leaf" } else { "other leaf" });
             env.ctx.trace();
         }
+        // quotient openings: floor(response / challenge) used as the randomness of a commitment carried in (or next to) the same
+        // sub-proof. If value = prod g_i^{m_i} * h^q (or g_i^{m_i} * h^q) holds, the response handed out the commitment's opening
+        // randomness (its blinding was missing), whatever the attributes are.
+        {
+            let n = it.n;
+            let fams: Vec<(&str, Vec<Integer>, Integer, Integer)> = vec![("(a_*, b, N)", w.bases.0[..n].to_vec(), w.pk.b.clone(), w.pk.N.clone()), ("(g_*, h, N)", w.cpk.g_bases[..n].to_vec(), w.cpk.h.clone(), w.cpk.N.clone()), ("(g'_*, h', N')", w.cpk_own.g_bases[..n].to_vec(), w.cpk_own.h.clone(), w.cpk_own.N.clone())];
+            // the parts of each candidate value that do not depend on q
+            let mut fixed: Vec<(String, Integer, Integer, Integer)> = Vec::new(); // (name, prod g^m, h, N)
+            for (fname, gs, h, nn) in &fams {
+                let mut acc = Integer::from(1); for i in 0..n { acc = (acc * modpow(&gs[i], &it.m[i], nn)) % nn; }
+                fixed.push((format!("prod g_i^m_i over {}", fname), acc, h.clone(), nn.clone()));
+                for i in 0..n { fixed.push((format!("g_{}^m_{} over {}", i, i, fname), modpow(&gs[i], &it.m[i], nn), h.clone(), nn.clone())); }
+                for (sn, x) in &it.secrets { if sn.starts_with("signature") { for i in 0..n.min(1) { fixed.push((format!("g_{}^({}) over {}", i, sn, fname), modpow(&gs[i], x, nn), h.clone(), nn.clone())); } } }
+            }
+            let top = |p: &Vec<String>| p.iter().take(2).cloned().collect::<Vec<_>>();
+            let is_elem = |v: &Integer| v.significant_bits() + 40 >= w.pk.N.significant_bits();
+            let values: Vec<&(Vec<String>, Integer)> = vals.iter().filter(|(p, v)| is_elem(v) && !matches!(p.last().unwrap().as_str(), "t" | "challenge" | "C")).collect();
+            let mut extra_vals: Vec<(Vec<String>, Integer)> = it.public_extra.iter().map(|(n, v)| (vec!["public".to_string(), n.clone()], v.clone())).collect();
+            extra_vals.retain(|(_, v)| is_elem(v));
+            for (ps, s_) in &vals {
+                let l = ps.last().unwrap(); let l = if l.chars().all(|c| c.is_ascii_digit()) && ps.len() >= 2 { &ps[ps.len() - 2] } else { l };
+                let resp = matches!(l.as_str(), "d" | "d_1" | "d_2" | "s1" | "s2") || (l.starts_with("s_") && l.len() == 3);
+                if !resp || *s_ < 0 || ps.iter().any(|x| x.starts_with("range_proof")) { continue; }
+                for (cn, c) in &cs {
+                    if *c <= 0 { continue; }
+                    // only the challenge(s) of the same sub-proof: carried next to the response, or recomputed for that sub-proof
+                    let same = cn.starts_with('/') && top(&cn.trim_start_matches('/').split('/').map(|x| x.to_string()).collect()) == top(ps) || cn.starts_with("recomputed") && ps.iter().any(|seg| cn.contains(seg.as_str()) && seg.len() > 3);
+                    if !same { continue; }
+                    let q = Integer::from(s_ / c);
+                    for (pv, V) in values.iter().map(|x| (&x.0, &x.1)).chain(extra_vals.iter().map(|x| (&x.0, &x.1))) {
+                        if pv[0] != "public" && top(pv) != top(ps) { continue; }
+                        for (fname, gm, h, nn) in &fixed {
+                            env.ctx.step();
+                            if (gm.clone() * modpow(h, &q, nn)) % nn == *V {
+                                env.ctx.violation(&format!("C19:quotient-opens-commitment:/{} over /{}", path_class(ps), path_class(pv)), &format!("/{} = {} * h^floor(/{} / {}): the response divided by its challenge is the opening randomness of that commitment", pv.join("/"), fname, ps.join("/"), cn), env.case(&it.id, json!({"base": det0, "value": pv.join("/"), "response": ps.join("/"), "challenge": cn, "bases": fname})));
+                            }
+                        }
+                    }
+                }
+            }
+        }
         // derived secrets: every embedded range proof, attacked through its proofs of square
         let root = &it.proof["CL03"];
         let secret = |name: &str| it.secrets.iter().find(|s| s.0 == name).map(|s| s.1.clone());
@@ -141,4 +182,24 @@ where CL03<CS>: Scheme<PubKey = CL03PublicKey, PrivKey = CL03SecretKey>, CS::Has
         env.ctx.add_extra("challenges_recomputed", cs.len() as u64);
         if it.n == 2 && it.hidden == vec![1] { env.ctx.sample(json!({"proof": it.id, "leaves": vals.len(), "challenges": cs.iter().map(|c| c.0.clone()).collect::<Vec<_>>(), "secrets": secrets.iter().map(|s| s.0.clone()).collect::<Vec<_>>()})); }
     });
+    // the length of a response must not depend on the secret it answers for: the same proof shape generated for hidden attributes
+    // 0 and 1 and for hash-sized ones must have responses of (nearly) the same bit length
+    let by_id: std::collections::HashMap<&str, &Item> = items.iter().map(|i| (i.id.as_str(), i)).collect();
+    for it in &items {
+        let base_id = match it.id.strip_suffix("/zero").or_else(|| it.id.strip_suffix("/one")) { Some(b) => b, None => continue };
+        let base = match by_id.get(base_id) { Some(b) => *b, None => continue };
+        if !env.want(&it.id) { continue; }
+        for p in int_leaf_paths(&it.proof) {
+            let l = p.last().unwrap(); let l = if l.chars().all(|c| c.is_ascii_digit()) && p.len() >= 2 { &p[p.len() - 2] } else { l };
+            let resp = matches!(l.as_str(), "d" | "d_1" | "d_2" | "s1" | "s2" | "D_1" | "D_2") || (l.starts_with("s_") && l.len() == 3);
+            if !resp { continue; }
+            let (a, b) = match (json_get(&it.proof, &p).and_then(leaf_int), json_get(&base.proof, &p).and_then(leaf_int)) { (Some(a), Some(b)) => (a, b), _ => continue };
+            env.ctx.state(&[it.id.as_bytes(), b"bits", p.join("/").as_bytes()]); env.ctx.step();
+            let (ba, bb) = (a.significant_bits() as i64, b.significant_bits() as i64);
+            if (ba - bb).abs() > 64 {
+                env.ctx.violation(&format!("C19:response-length-depends-on-secret:/{}", path_class(&p)), &format!("/{} has {} bits when the hidden attribute is small ({}) and {} bits when it is hash-sized: the size of a hidden attribute can be read off the proof", p.join("/"), ba, it.id.rsplit('/').next().unwrap_or(""), bb), env.case(&it.id, json!({"proof": it.id, "compared_with": base.id, "leaf": p.join("/"), "bits": [ba, bb]})));
+            }
+            env.ctx.class("response length"); env.ctx.trace();
+        }
+    }
 }
